@@ -17,7 +17,7 @@ a parameter, elements of collections collapsed to `P[]`) one of
   method of `self` whose summary uses P) while P is not VALID is a violation.
 """
 import re
-from .model import op_place, place_local, is_bare, trace_back
+from .model import op_place, op_local, place_local, place_proj, is_bare, trace_back
 from .mergecov import Aliases, fmt_path
 
 DS = "tantivy::docset::DocSet::"
@@ -501,6 +501,50 @@ def analyse(prog, summ, fid, entry_state=None, want_exit=False):
             # no other probe of q outside of tests, and no path keeps a pending result across the back edge
             if ok:
                 complete_edges[(sw, none_t)] = q
+    # restore loops: the body of a restorer (`seek_with_seek_danger`: probe the SAME docset again and again, leave through the
+    # Found arm, or because the lower bound reached the end) written in place.  Same approximation as Summaries.is_restorer:
+    # the probe sits in a loop, its receiver does not change inside that loop, a Found arm leaves the loop and no miss arm
+    # does — then every edge out of the loop leaves the docset restored (found, or exhausted).
+    restore_edges = {}
+    for pb, q in probes.items():
+        lp = natural_loop(body, pb)
+        h, k = pb, 0
+        while not lp and k < 6 and len(body.pred(h)) == 1:
+            h = body.pred(h)[0]
+            lp = natural_loop(body, h)
+            k += 1
+        if not lp or pb not in lp:
+            continue
+        tsts = [tt for sb, tt in tests.items() if tt[0] == pb]
+        live = lambda x: body.term(x)["k"] != "unreachable"      # the `otherwise` arm of an exhaustive match
+        if not tsts or not any(f_ not in lp for tt in tsts for f_ in tt[1]) or any(m not in lp and live(m) for tt in tsts for m in tt[2]):
+            continue
+        # loop-invariant receiver: following the receiver back through reborrows and moves, no definition inside the loop
+        # comes from a call (Iterator::next, IndexMut::index_mut with a changing index ...)
+        cur = op_local(body.term(pb)["args"][0])
+        invariant, hops = True, 0
+        defs_ = body.defs()
+        while cur is not None and hops < 10:
+            hops += 1
+            ds = defs_.get(cur, [])
+            inside = [d_ for d_ in ds if d_[1] in lp]
+            if not inside:
+                break
+            if len(ds) != 1 or ds[0][0] != "stmt" or ds[0][3].get("r") not in ("ref", "use", "rawptr"):
+                invariant = False
+                break
+            st_ = ds[0][3]
+            pl_ = st_.get("p") if st_.get("r") in ("ref", "rawptr") else op_place(st_["o"][0])
+            if pl_ is None or any(e.startswith("i:") for e in place_proj(pl_)):
+                invariant = False
+                break
+            cur = place_local(pl_)
+        if not invariant:
+            continue
+        for u in lp:
+            for v in body.succ(u):
+                if v not in lp:
+                    restore_edges[(u, v)] = q
     # forward dataflow: state[block-entry][path]
     nb = body.normal_blocks()
     entry = {b: None for b in nb}
@@ -539,6 +583,8 @@ def analyse(prog, summ, fid, entry_state=None, want_exit=False):
                             out[q] = VALID
             if (b, s) in complete_edges:
                 out[complete_edges[(b, s)]] = VALID
+            if (b, s) in restore_edges:
+                out[restore_edges[(b, s)]] = VALID
             cur = entry.get(s)
             if cur is None:
                 entry[s] = out
